@@ -176,6 +176,8 @@ def run(idx: ProgramIndex, rep: Report, tier: str):
     rep.rule("C05-4", "no in-place aliasing hazard in kernel forward code and the distance helpers (storage/version domain)")
     rep.rule("C05-3", "LCMKernel = sum over all member multitask kernels")
     piecewise_polynomial(idx, rep)
+    from .c07 import wendland_exponent
+    wendland_exponent(idx, rep, rule="C05-10")  # (the j of the closed form; shared with C07-9)
     derivative_chain(idx, rep)
     optional_parameters(idx, rep)
     K = "gpytorch.kernels.kernel"
